@@ -128,7 +128,32 @@ func buildSigners() []SignerSpec {
 		{Name: "rsa1024", Family: "rsa", New: func() ndn.Signer { return security.NewRsaSigner(false, false, 0, KeyRSA1024, keyName("r1")) }, Validate: rs(KeyRSA1024)},
 		{Name: "rsa1024-int", Family: "rsa", New: func() ndn.Signer { return security.NewRsaSigner(false, true, 0, KeyRSA1024, keyName("r1")) }, Validate: rs(KeyRSA1024)},
 		{Name: "empty-test", Family: "empty", New: func() ndn.Signer { return security.NewEmptySigner() }},
+		// key locator name with four zero-length components: /K/<e>/<e>/<e>/<e>/KEY
+		{Name: "hmac-klempty", Family: "hmac", New: func() ndn.Signer { return security.NewHmacSigner(keyNameEmpties(), HmacKey, false, 0) }, Validate: hm},
 	}
+}
+
+func keyNameEmpties() enc.Name {
+	n := enc.Name{enc.Component{Typ: 8, Val: []byte("K")}}
+	for i := 0; i < 4; i++ {
+		n = append(n, enc.Component{Typ: 8, Val: []byte{}})
+	}
+	return append(n, enc.Component{Typ: 8, Val: []byte("KEY")})
+}
+
+// SignerPool hands out ONE signer object per signer mode, so that consecutive packets are signed by
+// the same object (an application keeps its signer; state leaking between packets shows up only then).
+type SignerPool struct{ objs map[int]ndn.Signer }
+
+func NewSignerPool() *SignerPool { return &SignerPool{objs: map[int]ndn.Signer{}} }
+
+func (p *SignerPool) Get(i int) ndn.Signer {
+	if s, ok := p.objs[i]; ok {
+		return s
+	}
+	s := Signers()[i].New()
+	p.objs[i] = s
+	return s
 }
 
 // SignerIndex returns the index of the named signer in Signers() (-1 if absent).
